@@ -64,6 +64,7 @@ func (m *Mutex) Lock() {
 func (m *Mutex) Unlock() {
 	m.inner.Unlock()
 	m.simUnlock()
+	AfterSync()
 }
 
 func (m *Mutex) TryLock() bool {
@@ -180,9 +181,9 @@ func (m *RWMutex) simRUnlock() {
 }
 
 func (m *RWMutex) Lock()    { m.simLock(); m.inner.Lock() }
-func (m *RWMutex) Unlock()  { m.inner.Unlock(); m.simUnlock() }
+func (m *RWMutex) Unlock()  { m.inner.Unlock(); m.simUnlock(); AfterSync() }
 func (m *RWMutex) RLock()   { m.simRLock(); m.inner.RLock() }
-func (m *RWMutex) RUnlock() { m.inner.RUnlock(); m.simRUnlock() }
+func (m *RWMutex) RUnlock() { m.inner.RUnlock(); m.simRUnlock(); AfterSync() }
 
 // RLocker mirrors sync.RWMutex.RLocker.
 func (m *RWMutex) RLocker() sync.Locker { return (*rlocker)(m) }
@@ -232,6 +233,9 @@ func (w *WaitGroup) simWait() {
 func (w *WaitGroup) Add(delta int) {
 	w.simAdd(delta)
 	w.inner.Add(delta) // panics on a negative counter exactly like the real one
+	if delta < 0 {
+		AfterSync()
+	}
 }
 
 func (w *WaitGroup) Done() { w.Add(-1) }
